@@ -355,8 +355,8 @@ def _is_fresh_container(v) -> bool:
     return isinstance(v, ast.Call) and norm(v.func) in ("dict.fromkeys", "defaultdict", "collections.defaultdict", "Counter")
 
 
-def rule_r5(rep, program: Program):
-    r = rep.rule("R5", "pickle tables agree: __getstate__ keys/fields = __setstate__ keys/fields = fields set by __init__", floor=5)
+def rule_r5(rep, program: Program, prop=PROP, rule="R5"):
+    r = rep.rule(rule, "pickle tables agree: __getstate__ keys/fields = __setstate__ keys/fields = fields set by __init__", floor=5)
     gs = program.method("ChainState", "__getstate__")
     ss = program.method("ChainState", "__setstate__")
     init = program.method("ChainState", "__init__")
@@ -391,7 +391,8 @@ def rule_r5(rep, program: Program):
     sparam = ss.params[1]
     set_map = {}
     rebuilt: dict[str, ast.expr] = {}  # fields __setstate__ rebuilds instead of restoring
-    ss_body = ast.Module(body=unroll_constant_loops(ss.body_without_docstring()), type_ignores=[])
+    ss_stmts = _expand_init_call(init, unroll_constant_loops(ss.body_without_docstring()))
+    ss_body = ast.Module(body=ss_stmts, type_ignores=[])
     for st in ast.walk(ss_body):
         if isinstance(st, ast.Assign) and len(st.targets) == 1:
             t = st.targets[0]
@@ -419,29 +420,88 @@ def rule_r5(rep, program: Program):
     for k in sorted(set(get_map) | set(set_map)):
         r.inst({"key": k, "getstate_field": get_map.get(k), "setstate_field": set_map.get(k)})
         if k not in get_map:
-            r.violate(PROP, f"ChainState.pickle:key={k}:missing-in-getstate", f"__setstate__ reads key '{k}' that __getstate__ never writes (unpickling raises KeyError)", node=ss.node, file=ss.file)
+            r.violate(prop, f"ChainState.pickle:key={k}:missing-in-getstate", f"__setstate__ reads key '{k}' that __getstate__ never writes (unpickling raises KeyError)", node=ss.node, file=ss.file)
         elif k not in set_map and get_map[k] in rebuilt:
             continue  # pickled but deliberately rebuilt: harmless
         elif k not in set_map:
-            r.violate(PROP, f"ChainState.pickle:key={k}:missing-in-setstate", f"__getstate__ writes key '{k}' ({get_map[k]}) that __setstate__ never restores", node=gs.node, file=gs.file)
+            r.violate(prop, f"ChainState.pickle:key={k}:missing-in-setstate", f"__getstate__ writes key '{k}' ({get_map[k]}) that __setstate__ never restores", node=gs.node, file=gs.file)
         elif get_map[k] != set_map[k]:
-            r.violate(PROP, f"ChainState.pickle:key={k}:{get_map[k]}->{set_map[k]}", f"pickle round trip stores field {get_map[k]} under '{k}' but restores it into {set_map[k]}", node=ss.node, file=ss.file)
+            r.violate(prop, f"ChainState.pickle:key={k}:{get_map[k]}->{set_map[k]}", f"pickle round trip stores field {get_map[k]} under '{k}' but restores it into {set_map[k]}", node=ss.node, file=ss.file)
     # keys kept in the pickled cache must keep their dependency registrations
-    _check_dependency_filter(r, gs, get_map, filters)
+    _check_dependency_filter(r, gs, get_map, filters, prop)
     # rebuilt fields: the variables must come from the pickle; a restored cache needs its restored
     # dependency table (otherwise the restored entries are never invalidated again)
     for fld, v in sorted(rebuilt.items()):
         r.inst({"field rebuilt by __setstate__": fld, "as": norm(v)[:50]})
         if fld == "_variables":
-            r.violate(PROP, "ChainState.pickle:variables-not-restored", "__setstate__ does not restore the variables from the pickle", node=v, file=ss.file)
+            r.violate(prop, "ChainState.pickle:variables-not-restored", "__setstate__ does not restore the variables from the pickle", node=v, file=ss.file)
         if fld == "_cache" and not _is_empty_container(v):
             raise AnalysisError(f"ChainState.__setstate__: rebuilt cache is not an empty dict: {norm(v)[:50]}")
         if fld == "_dependencies" and "_cache" in set_map.values():
-            r.violate(PROP, "ChainState.pickle:cache-restored-without-dependencies", "__setstate__ restores the pickled cache but rebuilds an empty dependency table: the decorators find the restored keys in the cache, never register them again, and later assignments no longer invalidate them - stale values", node=v, file=ss.file)
+            r.violate(prop, "ChainState.pickle:cache-restored-without-dependencies", "__setstate__ restores the pickled cache but rebuilds an empty dependency table: the decorators find the restored keys in the cache, never register them again, and later assignments no longer invalidate them - stale values", node=v, file=ss.file)
     missing = init_fields - set(set_map.values()) - set(rebuilt)
     for m in sorted(missing):
-        r.violate(PROP, f"ChainState.pickle:field={m}:not-restored", f"field {m} set by __init__ is not restored by __setstate__ (attribute access recurses / fails after unpickling)", node=ss.node, file=ss.file)
+        r.violate(prop, f"ChainState.pickle:field={m}:not-restored", f"field {m} set by __init__ is not restored by __setstate__ (attribute access recurses / fails after unpickling)", node=ss.node, file=ss.file)
     return r
+
+
+def _expand_init_call(init, stmts):
+    """`self.__init__(k=v, ..., **vars)` inside __setstate__ written out as the field stores __init__ performs
+    for those arguments (parameters not passed take their defaults; `if p is None: p = E` is resolved)."""
+    import copy as _copy
+
+    out = []
+    for st in stmts:
+        c = st.value if isinstance(st, ast.Expr) else None
+        if not (isinstance(c, ast.Call) and norm(c.func) in ("self.__init__", "type(self).__init__", "ChainState.__init__")):
+            out.append(st)
+            continue
+        a = init.node.args
+        env: dict[str, ast.expr] = {}
+        for prm, d in zip(a.kwonlyargs, a.kw_defaults):
+            env[prm.arg] = d if d is not None else ast.Constant(value=None)
+        pos = a.args[1:]
+        for prm, d in zip(pos[len(pos) - len(a.defaults):], a.defaults):
+            env[prm.arg] = d
+        for kw in c.keywords:
+            if kw.arg is None:
+                if a.kwarg is not None:
+                    env[a.kwarg.arg] = kw.value
+            else:
+                env[kw.arg] = kw.value
+
+        def subst(e):
+            class Sub(ast.NodeTransformer):
+                def visit_Name(self, n):  # noqa: N802
+                    if isinstance(n.ctx, ast.Load) and n.id in env:
+                        return _copy.deepcopy(env[n.id])
+                    return n
+
+            return Sub().visit(_copy.deepcopy(e))
+
+        for b in init.body_without_docstring():
+            if isinstance(b, ast.If) and not b.orelse and isinstance(b.test, ast.Compare) and len(b.test.ops) == 1 and isinstance(b.test.ops[0], ast.Is) and isinstance(b.test.left, ast.Name) and isinstance(b.test.comparators[0], ast.Constant) and b.test.comparators[0].value is None:
+                cur = env.get(b.test.left.id)
+                if isinstance(cur, ast.Constant) and cur.value is None:
+                    for x in b.body:
+                        if isinstance(x, ast.Assign) and len(x.targets) == 1 and isinstance(x.targets[0], ast.Name):
+                            env[x.targets[0].id] = subst(x.value)
+                continue
+            if isinstance(b, ast.Assign) and len(b.targets) == 1 and isinstance(b.targets[0], ast.Name):
+                env[b.targets[0].id] = subst(b.value)
+                continue
+            if isinstance(b, ast.Assign) and len(b.targets) == 1 and isinstance(b.targets[0], ast.Subscript) and norm(b.targets[0].value) == "self.__dict__":
+                v = subst(b.value)
+                # a conditional wrapper around a restored value (Counter(x) if ... else x) restores x
+                subs = [n for n in ast.walk(v) if isinstance(n, ast.Subscript) and isinstance(n.slice, ast.Constant) and isinstance(n.value, ast.Name)]
+                if not isinstance(v, ast.Subscript) and subs and not _is_fresh_container(v):
+                    v = subs[0]
+                out.append(ast.fix_missing_locations(ast.copy_location(ast.Assign(targets=[_copy.deepcopy(b.targets[0])], value=v), st)))
+                continue
+            if isinstance(b, ast.Expr):
+                continue
+            raise AnalysisError(f"ChainState.__init__: statement outside the grammar when expanding self.__init__(...) in __setstate__: {norm(b)[:60]}")
+    return out
 
 
 def decorator_func(program: Program, dname: str):
@@ -584,7 +644,7 @@ def _pred_cases(pred: ast.expr, keyname: str, case: str):
     raise AnalysisError(f"ChainState.__getstate__: filter predicate outside the grammar: {t[:60]}")
 
 
-def _check_dependency_filter(r, gs, get_map, filters):
+def _check_dependency_filter(r, gs, get_map, filters, prop=PROP):
     dep_key = next((k for k, fld in get_map.items() if fld == "_dependencies"), None)
     cache_key = next((k for k, fld in get_map.items() if fld == "_cache"), None)
     if dep_key is None or cache_key is None:
@@ -619,7 +679,7 @@ def _check_dependency_filter(r, gs, get_map, filters):
         for case in kept_cases:
             if not _pred_cases(cond, keyname, case):
                 what = {"none": "an invalidated entry (value None)", "value": "a valid entry", "callable": "a function-valued entry"}[case]
-                r.violate(PROP, f"ChainState.__getstate__:dependencies-filter:{norm(cond)[:50]}", f"the pickled dependency table drops a key for which the pickled cache still holds {what} (filter `{norm(cond)}`): after unpickling the decorators find the key in the cache, never register it again, and later assignments no longer invalidate it - stale values", node=cond, file=gs.file)
+                r.violate(prop, f"ChainState.__getstate__:dependencies-filter:{norm(cond)[:50]}", f"the pickled dependency table drops a key for which the pickled cache still holds {what} (filter `{norm(cond)}`): after unpickling the decorators find the key in the cache, never register it again, and later assignments no longer invalidate it - stale values", node=cond, file=gs.file)
                 return
 
 
